@@ -1,19 +1,24 @@
 //! What the Rust client puts on the wire, fed to the real server parsers.
 //!  * commands.rs / options.rs / types.rs: the REAL code (`<redis::Cmd as CmdExt>::<fn>(..)`, arguments read back
 //!    with `Cmd::args_iter`).
-//!  * subscription.rs: the command is built inside async methods that need a live connection, so its eight
-//!    builders are TRANSCRIBED here (`sub_*`, same `cmd(..).arg(..)` calls in the same order, run through the
-//!    real redis `ToRedisArgs`); tagged `sub:` in the case line.
+//!  * subscription.rs: the REAL async methods of `SubscriptionManager`, connected to the in-process capture server
+//!    of capture.rs, which records the argument list that goes on the wire (tagged `sub:`).  Should the loopback
+//!    server be unavailable, the transcribed builders below (`sub_*`, same `cmd(..).arg(..)` calls) are used
+//!    instead and the case is tagged `sub~:`.
 //! For every call the request it denotes is printed from the call's arguments (not from any parser).
 use crate::enc::enc;
+use crate::capture::Capture;
 use crate::cases::{self, Tok};
+use std::collections::HashMap;
 use common::Rng;
 use redis::{Arg, Cmd, cmd};
 use sierradb_client::{CmdExt, EAppendOptions, EMAppendEvent, ExpectedVersion};
 use std::time::{Duration, UNIX_EPOCH};
 use uuid::Uuid;
 
-pub struct Emitted { pub func: String, pub cmd: String, pub tokens: Vec<Tok>, pub expect: String }
+/// `call`: the call in the form the model driver reads (`c21 CALL <Kind> k=v ...`), for comparing the model's printers
+/// with what the client really emitted
+pub struct Emitted { pub func: String, pub cmd: String, pub tokens: Vec<Tok>, pub expect: String, pub call: String }
 
 fn args(c: &Cmd) -> (String, Vec<Tok>) {
     let mut v: Vec<Tok> = c.args_iter().map(|a| match a { Arg::Simple(b) => b.to_vec(), _ => b"0".to_vec() }).collect();
@@ -122,8 +127,38 @@ fn fmap(m: &[(u16, u64)], d: &Option<u64>) -> String {
     format!("map[{}]default={}", v.iter().map(|(a, b)| format!("{a}={b}")).collect::<Vec<_>>().join(","), on(d))
 }
 
-pub fn emit(r: &mut Rng) -> Emitted {
-    let mk = |func: &str, c: Cmd, expect: String| { let (cmd, tokens) = args(&c); Emitted { func: func.into(), cmd, tokens, expect } };
+fn opt_n(x: &Option<u64>) -> String { on(x) }
+fn rend(b: &Option<u64>) -> String { b.map(|x| x.to_string()).unwrap_or("+".into()) }
+fn mp(m: &[(u16, u64)]) -> String { if m.is_empty() { "-".into() } else { m.iter().map(|(a, b)| format!("{a}:{b}")).collect::<Vec<_>>().join(",") } }
+fn some_num(r: &mut Rng) -> Option<u64> { if r.chance(1, 2) { Some(num(r)) } else { None } }
+
+/// run a real SubscriptionManager method against the capture server; fall back to the transcribed command
+macro_rules! real {
+    ($cap:expr, $fb:expr, $m:ident => $call:expr) => {{
+        let mut got = None;
+        if let Some(c) = $cap.as_mut() {
+            let mut $m = c.mgr.clone();
+            let _ = c.rt.block_on(async { $call.await.map(|_| ()) });
+            got = c.take();
+        }
+        match got {
+            Some(mut v) => { let name = String::from_utf8_lossy(&v.remove(0)).to_uppercase(); (name, v, true) }
+            None => { let (n, t) = args(&$fb); (n, t, false) }
+        }
+    }};
+}
+/// the (partition, sequence) pairs in the order the `p=s` tokens were emitted (HashMap iteration order)
+fn emitted_order(tokens: &[Tok], m: &[(u16, u64)]) -> Vec<(u16, u64)> {
+    let mut o = Vec::new();
+    for t in tokens {
+        if let Ok(s) = std::str::from_utf8(t) { if let Some((p, q)) = s.split_once('=') {
+            if let (Ok(p), Ok(q)) = (p.parse::<u16>(), q.parse::<u64>()) { if m.contains(&(p, q)) { o.push((p, q)); } } } }
+    }
+    if o.len() == m.len() { o } else { m.to_vec() }
+}
+
+pub fn emit(r: &mut Rng, cap: &mut Option<Capture>) -> Emitted {
+    let mk = |func: &str, call: String, c: Cmd, expect: String| { let (cmd, tokens) = args(&c); Emitted { func: func.into(), cmd, tokens, expect, call } };
     match r.below(30) {
         0 | 1 | 2 => {
             let (sd, name) = (sid(r), s(&cases::t_name(r)));
@@ -135,8 +170,8 @@ pub fn emit(r: &mut Rng) -> Emitted {
             if r.chance(1, 2) { let m = r.below(1 << 45); o = o.timestamp(UNIX_EPOCH + Duration::from_millis(m)); ts = Some(m); }
             let (p, m) = (if r.chance(1, 2) { payload(r) } else { vec![] }, if r.chance(1, 3) { payload(r) } else { vec![] });
             o = o.payload(p.clone()).metadata(m.clone());
-            mk("eappend", <Cmd as CmdExt>::eappend(sd.as_str(), name.as_str(), o),
-               format!("EAPPEND sid={} name={} id={} pk={} ev={} ts={} payload={} meta={}", enc(sd.as_bytes()), enc(name.as_bytes()), ou(&id), ou(&pk), ev(&e), on(&ts), enc(&p), enc(&m)))
+            let fields = format!("sid={} name={} id={} pk={} ev={} ts={} payload={} meta={}", enc(sd.as_bytes()), enc(name.as_bytes()), ou(&id), ou(&pk), ev(&e), on(&ts), enc(&p), enc(&m));
+            mk("eappend", format!("EAppend {fields}"), <Cmd as CmdExt>::eappend(sd.as_str(), name.as_str(), o), format!("EAPPEND {fields}"))
         }
         3 | 4 | 5 => {
             let pk = cases::uuid_value(r);
@@ -153,55 +188,129 @@ pub fn emit(r: &mut Rng) -> Emitted {
                 ex.push(format!("sid={} name={} id={} ev={} ts={} payload={} meta={}", enc(sd.as_bytes()), enc(name.as_bytes()), ou(&id), ev(&v), on(&ts), enc(&p), enc(&m)));
                 evs.push(e);
             }
-            mk("emappend", <Cmd as CmdExt>::emappend(pk, &evs), format!("EMAPPEND pk={} [{}]", u(&pk), ex.join(";")))
+            mk("emappend", format!("EMAppend pk={} ; {}", u(&pk), ex.join(" ; ")), <Cmd as CmdExt>::emappend(pk, &evs), format!("EMAPPEND pk={} [{}]", u(&pk), ex.join(";")))
         }
-        6 => { let x = cases::uuid_value(r); mk("eget", <Cmd as CmdExt>::eget(x), format!("EGET id={}", u(&x))) }
-        7 => { let (k, a, b, c) = (cases::uuid_value(r), num(r), if r.chance(1, 2) { Some(num(r)) } else { None }, if r.chance(1, 2) { Some(num(r)) } else { None });
-               mk("epscan_by_key", <Cmd as CmdExt>::epscan_by_key(k, a, b, c), format!("EPSCAN part=key:{} start={} end={} count={}", u(&k), a, b.map(|x| x.to_string()).unwrap_or("+".into()), c.unwrap_or(100))) }
-        8 => { let (k, a, b, c) = (*r.pick(&[0u16, 42, 65535]), num(r), if r.chance(1, 2) { Some(num(r)) } else { None }, if r.chance(1, 2) { Some(num(r)) } else { None });
-               mk("epscan_by_id", <Cmd as CmdExt>::epscan_by_id(k, a, b, c), format!("EPSCAN part=id:{} start={} end={} count={}", k, a, b.map(|x| x.to_string()).unwrap_or("+".into()), c.unwrap_or(100))) }
-        9 => { let (sd, a, b, c) = (sid(r), num(r), if r.chance(1, 2) { Some(num(r)) } else { None }, if r.chance(1, 2) { Some(num(r)) } else { None });
-               mk("escan", <Cmd as CmdExt>::escan(&sd, a, b, c), format!("ESCAN sid={} start={} end={} pk=- count={}", enc(sd.as_bytes()), a, b.map(|x| x.to_string()).unwrap_or("+".into()), c.unwrap_or(100))) }
-        10 => { let (sd, k, a, b, c) = (sid(r), cases::uuid_value(r), num(r), if r.chance(1, 2) { Some(num(r)) } else { None }, if r.chance(1, 2) { Some(num(r)) } else { None });
-               mk("escan_with_partition_key", <Cmd as CmdExt>::escan_with_partition_key(&sd, k, a, b, c), format!("ESCAN sid={} start={} end={} pk={} count={}", enc(sd.as_bytes()), a, b.map(|x| x.to_string()).unwrap_or("+".into()), u(&k), c.unwrap_or(100))) }
-        11 => { let k = cases::uuid_value(r); mk("epseq_by_key", <Cmd as CmdExt>::epseq_by_key(k), format!("EPSEQ part=key:{}", u(&k))) }
-        12 => { let k = *r.pick(&[0u16, 42, 65535]); mk("epseq_by_id", <Cmd as CmdExt>::epseq_by_id(k), format!("EPSEQ part=id:{k}")) }
-        13 => { let sd = sid(r); mk("esver", <Cmd as CmdExt>::esver(&sd), format!("ESVER sid={} pk=-", enc(sd.as_bytes()))) }
-        14 => { let (sd, k) = (sid(r), cases::uuid_value(r)); mk("esver_with_partition_key", <Cmd as CmdExt>::esver_with_partition_key(&sd, k), format!("ESVER sid={} pk={}", enc(sd.as_bytes()), u(&k))) }
-        15 => { let sd = sid(r); mk("esub", <Cmd as CmdExt>::esub(sd.as_str()), format!("ESUB stream sid={} pk=d from=- win=-", enc(sd.as_bytes()))) }
-        16 => { let (sd, k) = (sid(r), cases::uuid_value(r)); mk("esub_with_partition_key", <Cmd as CmdExt>::esub_with_partition_key(sd.as_str(), k), format!("ESUB stream sid={} pk={} from=- win=-", enc(sd.as_bytes()), u(&k))) }
-        17 => { let (sd, n) = (sid(r), num(r)); mk("esub_from_version", <Cmd as CmdExt>::esub_from_version(sd.as_str(), n), format!("ESUB stream sid={} pk=d from={} win=-", enc(sd.as_bytes()), n)) }
-        18 => { let (sd, k, n) = (sid(r), cases::uuid_value(r), num(r)); mk("esub_with_partition_and_version", <Cmd as CmdExt>::esub_with_partition_and_version(sd.as_str(), k, n), format!("ESUB stream sid={} pk={} from={} win=-", enc(sd.as_bytes()), u(&k), n)) }
-        19 => { let k = cases::uuid_value(r); if r.chance(1, 2) { mk("epsub_by_key", <Cmd as CmdExt>::epsub_by_key(k), format!("EPSUB partition-of-key {} from=- win=-", u(&k))) }
-                else { let n = num(r); mk("epsub_by_key_from_sequence", <Cmd as CmdExt>::epsub_by_key_from_sequence(k, n), format!("EPSUB partition-of-key {} from={} win=-", u(&k), n)) } }
-        20 => { let k = *r.pick(&[0u16, 42, 65535]); if r.chance(1, 2) { mk("epsub_by_id", <Cmd as CmdExt>::epsub_by_id(k), format!("EPSUB part {k} from=- win=-")) }
-                else { let n = num(r); mk("epsub_by_id_from_sequence", <Cmd as CmdExt>::epsub_by_id_from_sequence(k, n), format!("EPSUB part {k} from={n} win=-")) } }
-        21 => { let (x, n) = (cases::uuid_value(r), num(r)); mk("eack", <Cmd as CmdExt>::eack(x, n), format!("EACK id={} cursor={}", u(&x), n)) }
-        // ---- subscription.rs (transcribed builders)
-        22 | 23 => { let (sd, k, f, w) = (sid(r), if r.chance(1, 2) { Some(cases::uuid_value(r)) } else { None }, if r.chance(1, 2) { Some(num(r)) } else { None }, win(r));
-                mk("sub:subscribe_to_stream_with_options", sub_stream_with_options(&sd, k, f, w),
-                   format!("ESUB stream sid={} pk={} from={} win={}", enc(sd.as_bytes()), k.map(|x| u(&x)).unwrap_or("d".into()), on(&f), on(&w))) }
-        24 => { let (f, w) = (if r.chance(1, 2) { Some(num(r)) } else { None }, win(r));
-                if r.chance(1, 2) { let k = *r.pick(&[0u16, 42, 65535]); mk("sub:subscribe_to_partition_with_options(id)", sub_partition_with_options(&PSel::Id(k), f, w), format!("EPSUB part {k} from={} win={}", on(&f), on(&w))) }
-                else { let k = cases::uuid_value(r); mk("sub:subscribe_to_partition_with_options(key)", sub_partition_with_options(&PSel::Key(k), f, w), format!("EPSUB partition-of-key {} from={} win={}", u(&k), on(&f), on(&w))) } }
+        6 => { let x = cases::uuid_value(r); mk("eget", format!("EGet id={}", u(&x)), <Cmd as CmdExt>::eget(x), format!("EGET id={}", u(&x))) }
+        7 => { let (k, a, b, c) = (cases::uuid_value(r), num(r), some_num(r), some_num(r));
+               mk("epscan_by_key", format!("EPScan sel=key:{} start={a} end={} count={}", u(&k), opt_n(&b), opt_n(&c)), <Cmd as CmdExt>::epscan_by_key(k, a, b, c),
+                  format!("EPSCAN part=key:{} start={} end={} count={}", u(&k), a, rend(&b), c.unwrap_or(100))) }
+        8 => { let (k, a, b, c) = (*r.pick(&[0u16, 42, 65535]), num(r), some_num(r), some_num(r));
+               mk("epscan_by_id", format!("EPScan sel=id:{k} start={a} end={} count={}", opt_n(&b), opt_n(&c)), <Cmd as CmdExt>::epscan_by_id(k, a, b, c),
+                  format!("EPSCAN part=id:{} start={} end={} count={}", k, a, rend(&b), c.unwrap_or(100))) }
+        9 => { let (sd, a, b, c) = (sid(r), num(r), some_num(r), some_num(r));
+               mk("escan", format!("EScan sid={} pk=- start={a} end={} count={}", enc(sd.as_bytes()), opt_n(&b), opt_n(&c)), <Cmd as CmdExt>::escan(&sd, a, b, c),
+                  format!("ESCAN sid={} start={} end={} pk=- count={}", enc(sd.as_bytes()), a, rend(&b), c.unwrap_or(100))) }
+        10 => { let (sd, k, a, b, c) = (sid(r), cases::uuid_value(r), num(r), some_num(r), some_num(r));
+               mk("escan_with_partition_key", format!("EScan sid={} pk={} start={a} end={} count={}", enc(sd.as_bytes()), u(&k), opt_n(&b), opt_n(&c)),
+                  <Cmd as CmdExt>::escan_with_partition_key(&sd, k, a, b, c),
+                  format!("ESCAN sid={} start={} end={} pk={} count={}", enc(sd.as_bytes()), a, rend(&b), u(&k), c.unwrap_or(100))) }
+        11 => { let k = cases::uuid_value(r); mk("epseq_by_key", format!("EPSeq sel=key:{}", u(&k)), <Cmd as CmdExt>::epseq_by_key(k), format!("EPSEQ part=key:{}", u(&k))) }
+        12 => { let k = *r.pick(&[0u16, 42, 65535]); mk("epseq_by_id", format!("EPSeq sel=id:{k}"), <Cmd as CmdExt>::epseq_by_id(k), format!("EPSEQ part=id:{k}")) }
+        13 => { let sd = sid(r); mk("esver", format!("ESVer sid={} pk=-", enc(sd.as_bytes())), <Cmd as CmdExt>::esver(&sd), format!("ESVER sid={} pk=-", enc(sd.as_bytes()))) }
+        14 => { let (sd, k) = (sid(r), cases::uuid_value(r)); mk("esver_with_partition_key", format!("ESVer sid={} pk={}", enc(sd.as_bytes()), u(&k)),
+                <Cmd as CmdExt>::esver_with_partition_key(&sd, k), format!("ESVER sid={} pk={}", enc(sd.as_bytes()), u(&k))) }
+        15 => { let sd = sid(r); mk("esub", format!("ESub sid={} pk=- from=- win=-", enc(sd.as_bytes())), <Cmd as CmdExt>::esub(sd.as_str()), format!("ESUB stream sid={} pk=d from=- win=-", enc(sd.as_bytes()))) }
+        16 => { let (sd, k) = (sid(r), cases::uuid_value(r)); mk("esub_with_partition_key", format!("ESub sid={} pk={} from=- win=-", enc(sd.as_bytes()), u(&k)),
+                <Cmd as CmdExt>::esub_with_partition_key(sd.as_str(), k), format!("ESUB stream sid={} pk={} from=- win=-", enc(sd.as_bytes()), u(&k))) }
+        17 => { let (sd, n) = (sid(r), num(r)); mk("esub_from_version", format!("ESub sid={} pk=- from={n} win=-", enc(sd.as_bytes())),
+                <Cmd as CmdExt>::esub_from_version(sd.as_str(), n), format!("ESUB stream sid={} pk=d from={} win=-", enc(sd.as_bytes()), n)) }
+        18 => { let (sd, k, n) = (sid(r), cases::uuid_value(r), num(r)); mk("esub_with_partition_and_version", format!("ESub sid={} pk={} from={n} win=-", enc(sd.as_bytes()), u(&k)),
+                <Cmd as CmdExt>::esub_with_partition_and_version(sd.as_str(), k, n), format!("ESUB stream sid={} pk={} from={} win=-", enc(sd.as_bytes()), u(&k), n)) }
+        19 => { let k = cases::uuid_value(r);
+                if r.chance(1, 2) { mk("epsub_by_key", format!("EPSubKey u={} from=- win=-", u(&k)), <Cmd as CmdExt>::epsub_by_key(k), format!("EPSUB partition-of-key {} from=- win=-", u(&k))) }
+                else { let n = num(r); mk("epsub_by_key_from_sequence", format!("EPSubKey u={} from={n} win=-", u(&k)), <Cmd as CmdExt>::epsub_by_key_from_sequence(k, n), format!("EPSUB partition-of-key {} from={} win=-", u(&k), n)) } }
+        20 => { let k = *r.pick(&[0u16, 42, 65535]);
+                if r.chance(1, 2) { mk("epsub_by_id", format!("EPSubId p={k} from=- win=-"), <Cmd as CmdExt>::epsub_by_id(k), format!("EPSUB part {k} from=- win=-")) }
+                else { let n = num(r); mk("epsub_by_id_from_sequence", format!("EPSubId p={k} from={n} win=-"), <Cmd as CmdExt>::epsub_by_id_from_sequence(k, n), format!("EPSUB part {k} from={n} win=-")) } }
+        21 => { let (x, n) = (cases::uuid_value(r), num(r)); mk("eack", format!("EAck id={} cursor={n}", u(&x)), <Cmd as CmdExt>::eack(x, n), format!("EACK id={} cursor={}", u(&x), n)) }
+        // ---- subscription.rs: the real methods through the capture server
+        22 | 23 => { let (sd, k, f, w) = (sid(r), if r.chance(1, 2) { Some(cases::uuid_value(r)) } else { None }, some_num(r), win(r));
+                let fb = sub_stream_with_options(&sd, k, f, w);
+                let sdr = sd.as_str();
+                let (cmd, tokens, real) = match (k, f, w) {
+                    (None, None, None) => real!(cap, fb, m => m.subscribe_to_stream(sdr)),
+                    (None, None, Some(w)) => real!(cap, fb, m => m.subscribe_to_stream_with_window(sdr, w)),
+                    (None, Some(f), None) => real!(cap, fb, m => m.subscribe_to_stream_from_version(sdr, f)),
+                    (None, Some(f), Some(w)) => real!(cap, fb, m => m.subscribe_to_stream_from_version_with_window(sdr, f, w)),
+                    (Some(k), None, None) => real!(cap, fb, m => m.subscribe_to_stream_with_partition_key(sdr, k)),
+                    (Some(k), None, Some(w)) => real!(cap, fb, m => m.subscribe_to_stream_with_partition_key_and_window(sdr, k, w)),
+                    (Some(k), Some(f), None) => real!(cap, fb, m => m.subscribe_to_stream_with_partition_and_version(sdr, k, f)),
+                    (Some(k), Some(f), Some(w)) => real!(cap, fb, m => m.subscribe_to_stream_with_partition_and_version_and_window(sdr, k, f, w)),
+                };
+                Emitted { func: format!("{}subscribe_to_stream*", if real { "sub:" } else { "sub~:" }), cmd, tokens,
+                    call: format!("ESub sid={} pk={} from={} win={}", enc(sd.as_bytes()), ou(&k), on(&f), on(&w)),
+                    expect: format!("ESUB stream sid={} pk={} from={} win={}", enc(sd.as_bytes()), k.map(|x| u(&x)).unwrap_or("d".into()), on(&f), on(&w)) } }
+        24 => { let (f, w) = (some_num(r), win(r));
+                if r.chance(1, 2) {
+                    let k = *r.pick(&[0u16, 42, 65535]);
+                    let fb = sub_partition_with_options(&PSel::Id(k), f, w);
+                    let (cmd, tokens, real) = match (f, w) {
+                        (None, None) => real!(cap, fb, m => m.subscribe_to_partition(k)),
+                        (None, Some(w)) => real!(cap, fb, m => m.subscribe_to_partition_with_window(k, w)),
+                        (Some(f), None) => real!(cap, fb, m => m.subscribe_to_partition_from_sequence(k, f)),
+                        (Some(f), Some(w)) => real!(cap, fb, m => m.subscribe_to_partition_from_sequence_with_window(k, f, w)),
+                    };
+                    Emitted { func: format!("{}subscribe_to_partition*", if real { "sub:" } else { "sub~:" }), cmd, tokens,
+                        call: format!("EPSubId p={k} from={} win={}", on(&f), on(&w)), expect: format!("EPSUB part {k} from={} win={}", on(&f), on(&w)) }
+                } else {
+                    let k = cases::uuid_value(r);
+                    let fb = sub_partition_with_options(&PSel::Key(k), f, w);
+                    let (cmd, tokens, real) = match (f, w) {
+                        (None, None) => real!(cap, fb, m => m.subscribe_to_partition_key(k)),
+                        (None, Some(w)) => real!(cap, fb, m => m.subscribe_to_partition_key_with_window(k, w)),
+                        (Some(f), None) => real!(cap, fb, m => m.subscribe_to_partition_key_from_sequence(k, f)),
+                        (Some(f), Some(w)) => real!(cap, fb, m => m.subscribe_to_partition_key_from_sequence_with_window(k, f, w)),
+                    };
+                    Emitted { func: format!("{}subscribe_to_partition_key*", if real { "sub:" } else { "sub~:" }), cmd, tokens,
+                        call: format!("EPSubKey u={} from={} win={}", u(&k), on(&f), on(&w)), expect: format!("EPSUB partition-of-key {} from={} win={}", u(&k), on(&f), on(&w)) }
+                } }
         25 => { let (n, w) = (num(r), win(r));
                 match r.below(4) {
-                    0 => mk("sub:subscribe_to_partitions(*)", sub_partitions("*", n, w), format!("EPSUB all from=all:{n} win={}", on(&w))),
-                    1 => mk("sub:subscribe_to_partitions(list)", sub_partitions("0,1,5", n, w), format!("EPSUB parts [0,1,5] from=all:{n} win={}", on(&w))),
-                    2 => mk("sub:subscribe_to_partitions(one)", sub_partitions("42", n, w), format!("EPSUB part 42 from={n} win={}", on(&w))),
+                    0 => { let fb = sub_partitions("*", n, w); let (cmd, tokens, real) = real!(cap, fb, m => m.subscribe_to_all_partitions(n, w));
+                           Emitted { func: format!("{}subscribe_to_all_partitions", if real { "sub:" } else { "sub~:" }), cmd, tokens,
+                               call: format!("EPSubText sel=* from={n} win={}", on(&w)), expect: format!("EPSUB all from=all:{n} win={}", on(&w)) } }
+                    1 => { let fb = sub_partitions("0,1,5", n, w); let (cmd, tokens, real) = real!(cap, fb, m => m.subscribe_to_partitions("0,1,5", n, w));
+                           Emitted { func: format!("{}subscribe_to_partitions(list)", if real { "sub:" } else { "sub~:" }), cmd, tokens,
+                               call: format!("EPSubText sel=0,1,5 from={n} win={}", on(&w)), expect: format!("EPSUB parts [0,1,5] from=all:{n} win={}", on(&w)) } }
+                    2 => { let fb = sub_partitions("42", n, w); let (cmd, tokens, real) = real!(cap, fb, m => m.subscribe_to_partitions("42", n, w));
+                           Emitted { func: format!("{}subscribe_to_partitions(one)", if real { "sub:" } else { "sub~:" }), cmd, tokens,
+                               call: format!("EPSubText sel=42 from={n} win={}", on(&w)), expect: format!("EPSUB part 42 from={n} win={}", on(&w)) } }
                     _ => { let (a, b) = (r.below(100) as u16, r.range(100, 300) as u16);
-                           mk("sub:subscribe_to_partition_range", sub_partitions(&format!("{a}-{b}"), n, w), format!("EPSUB partition-range {a}-{b} from=all:{n} win={}", on(&w))) }
+                           let fb = sub_partitions(&format!("{a}-{b}"), n, w); let (cmd, tokens, real) = real!(cap, fb, m => m.subscribe_to_partition_range(a, b, n, w));
+                           Emitted { func: format!("{}subscribe_to_partition_range", if real { "sub:" } else { "sub~:" }), cmd, tokens,
+                               call: format!("EPSubText sel={a}-{b} from={n} win={}", on(&w)), expect: format!("EPSUB partition-range {a}-{b} from=all:{n} win={}", on(&w)) } }
                 } }
-        26 => { let (m, w) = (seq_map(r), win(r));
-                let mut ps: Vec<u16> = m.iter().map(|x| x.0).collect(); ps.sort();
-                let e = if m.len() == 1 { format!("EPSUB part {} from={} win={}", m[0].0, m[0].1, on(&w)) }
-                        else { format!("EPSUB parts [{}] from={} win={}", ps.iter().map(|p| p.to_string()).collect::<Vec<_>>().join(","), fmap(&m, &None), on(&w)) };
-                mk("sub:subscribe_to_partitions_with_sequences", sub_partitions_with_sequences(&m, w), e) }
-        27 => { if r.chance(1, 2) { let sd = sid(r); mk("sub:subscribe_to_stream_from_latest", sub_stream_from_latest(&sd), format!("ESUB stream sid={} pk=d from=- win=-", enc(sd.as_bytes()))) }
-                else { mk("sub:subscribe_to_all_partitions_from_latest", sub_all_partitions_from_latest(), "EPSUB all from=latest win=-".into()) } }
-        28 => { let (m, d, w) = (if r.chance(1, 3) { vec![] } else { seq_map(r) }, if r.chance(1, 2) { Some(num(r)) } else { None }, win(r));
-                let f = if m.is_empty() { match d { None => "latest".to_string(), Some(x) => format!("all:{x}") } } else { fmap(&m, &d) };
-                mk("sub:subscribe_to_all_partitions_flexible", sub_all_partitions_flexible(&m, d, w), format!("EPSUB all from={f} win={}", on(&w))) }
-        _ => { let (x, n) = (cases::uuid_value(r), num(r)); mk("sub:acknowledge_up_to_cursor", sub_ack(x, n), format!("EACK id={} cursor={}", u(&x), n)) }
+        26 => { let (m0, w) = (seq_map(r), win(r));
+                let fb = sub_partitions_with_sequences(&m0, w);
+                let hm: HashMap<u16, u64> = m0.iter().copied().collect();
+                let (cmd, tokens, real) = real!(cap, fb, m => m.subscribe_to_partitions_with_sequences(hm, w));
+                let mo = emitted_order(&tokens, &m0);
+                let mut ps: Vec<u16> = mo.iter().map(|x| x.0).collect(); ps.sort();
+                let e = if mo.len() == 1 { format!("EPSUB part {} from={} win={}", mo[0].0, mo[0].1, on(&w)) }
+                        else { format!("EPSUB parts [{}] from={} win={}", ps.iter().map(|p| p.to_string()).collect::<Vec<_>>().join(","), fmap(&mo, &None), on(&w)) };
+                Emitted { func: format!("{}subscribe_to_partitions_with_sequences", if real { "sub:" } else { "sub~:" }), cmd, tokens,
+                    call: format!("EPSubSeqs m={} win={}", mp(&mo), on(&w)), expect: e } }
+        27 => { if r.chance(1, 2) { let sd = sid(r); let fb = sub_stream_from_latest(&sd); let sdr = sd.as_str();
+                    let (cmd, tokens, real) = real!(cap, fb, m => m.subscribe_to_stream_from_latest(sdr));
+                    Emitted { func: format!("{}subscribe_to_stream_from_latest", if real { "sub:" } else { "sub~:" }), cmd, tokens,
+                        call: format!("ESubLatest sid={}", enc(sd.as_bytes())), expect: format!("ESUB stream sid={} pk=d from=- win=-", enc(sd.as_bytes())) } }
+                else { let fb = sub_all_partitions_from_latest(); let (cmd, tokens, real) = real!(cap, fb, m => m.subscribe_to_all_partitions_from_latest());
+                    Emitted { func: format!("{}subscribe_to_all_partitions_from_latest", if real { "sub:" } else { "sub~:" }), cmd, tokens,
+                        call: "EPSubAllLatest".into(), expect: "EPSUB all from=latest win=-".into() } } }
+        28 => { let (m0, d, w) = (if r.chance(1, 3) { vec![] } else { seq_map(r) }, some_num(r), win(r));
+                let fb = sub_all_partitions_flexible(&m0, d, w);
+                let hm: HashMap<u16, u64> = m0.iter().copied().collect();
+                let (cmd, tokens, real) = match d {
+                    Some(dv) if r.chance(1, 2) => real!(cap, fb, m => m.subscribe_to_all_partitions_with_fallback(hm, dv, w)),
+                    _ => real!(cap, fb, m => m.subscribe_to_all_partitions_flexible(hm, d, w)),
+                };
+                let mo = emitted_order(&tokens, &m0);
+                let f = if mo.is_empty() { match d { None => "latest".to_string(), Some(x) => format!("all:{x}") } } else { fmap(&mo, &d) };
+                Emitted { func: format!("{}subscribe_to_all_partitions_flexible", if real { "sub:" } else { "sub~:" }), cmd, tokens,
+                    call: format!("EPSubAll m={} fallback={} win={}", mp(&mo), on(&d), on(&w)), expect: format!("EPSUB all from={f} win={}", on(&w)) } }
+        _ => { let (x, n) = (cases::uuid_value(r), num(r)); let fb = sub_ack(x, n);
+               let (cmd, tokens, real) = real!(cap, fb, m => m.acknowledge_up_to_cursor(x, n));
+               Emitted { func: format!("{}acknowledge_up_to_cursor", if real { "sub:" } else { "sub~:" }), cmd, tokens,
+                   call: format!("EAck id={} cursor={n}", u(&x)), expect: format!("EACK id={} cursor={}", u(&x), n) } }
     }
 }
